@@ -753,6 +753,12 @@ O(id='OCTET_STRING_decode_ber.grid', props=['C03', 'C04', 'C05', 'C14'], kind='n
   bound='native grid under ASan/UBSan/LSan with the assertions of h_octet_string_ber.c, OCTET STRING and BIT STRING: every input of at most 2 octets, 3-octet inputs with 12 leading octets, 4 outer forms x every sequence of at most 3 of 8 segment templates (primitive, nested constructed, indefinite, end-of-contents, foreign tag, bad length); every truncation x every two-chunk split',
   timeout=1500)
 
+for _nb, _tier in ((6, 'quick'), (8, 'thorough')):
+  O(id='SET_OF_decode_oer.grid%d' % _nb, props=['C04', 'C05', 'C14', 'C15'], kind='native', tier=_tier, defines=['VF_NBMAX=%d' % _nb], harness='harness/grid_setof_oer.c', entry='main',
+    functions=['SET_OF_decode_oer', 'oer_fetch_quantity', 'asn_set_add', 'SET_OF_free'], no_canary=True,
+    bound='native grid under ASan/UBSan/LSan with the assertions of h_setof_oer.c (one-shot, two chunks, three chunks with an empty middle one): 5 quantity field forms x n = 0..5 x every string of at most %d element octets' % _nb + ' over {00, 01, 7f, ff} x every truncation x every split point',
+    timeout=1500)
+
 for _o in OBLIGATIONS:
     if _o.get('enforce') and _o.get('kind') in ('enforce', 'width') and _o.get('tier') == 'quick' and 'C19' not in _o['props']:
         _o['props'] = _o['props'] + ['C19']
